@@ -93,6 +93,14 @@ CLEAR = FnSpec(FILE, 'clear', IMPL, mod=MOD, ret=None, contract='''
             ensures final(self).inv(), final(self)@ == Multiset::<Strand<S>>::empty(), !final(self).has_finalize,
 ''')
 
+# the reuse entry braid() calls on its BraidBuffer: whatever an earlier (possibly aborted) braid left behind,
+# the heap handed out is empty and its finalize flag is down (so a stale flag cannot refuse a lone finalize,
+# and a stale strand cannot enter the new braid). No precondition: must hold even from a state without inv().
+GET = FnSpec(FILE, 'get', IMPL, mod=MOD, contract='''
+            ensures r.inv(), r@ == Multiset::<Strand<S>>::empty(), !r.has_finalize,
+                *final(r) == *final(self),
+''')
+
 PUSH = FnSpec(FILE, 'push', IMPL, mod=MOD, contract='''
             requires old(self).inv(),
             ensures final(self).inv(),
@@ -164,4 +172,4 @@ LONE = FnSpec(FILE, 'lone', IMPL, mod=MOD, contract='''
 
 
 def build():
-    return build_unit(PRELUDE, [(IMPL, [NEW, CLEAR, PUSH, POP, LONE])])
+    return build_unit(PRELUDE, [(IMPL, [NEW, CLEAR, GET, PUSH, POP, LONE])])
